@@ -302,6 +302,7 @@ func runTail(tl Tail, path string) (res tailResult) {
 	var mu sync.Mutex
 	var got []delivered
 	consumerDone := make(chan struct{})
+	var idle int32 // 1 while the consumer waits for a line (all its pauses for the current position are over)
 	go func() {
 		defer close(consumerDone)
 		n := 0
@@ -314,8 +315,10 @@ func runTail(tl Tail, path string) (res tailResult) {
 					}
 				}
 			}
+			atomic.StoreInt32(&idle, 1)
 			select {
 			case l := <-lines:
+				atomic.StoreInt32(&idle, 0)
 				mu.Lock()
 				got = append(got, delivered{Content: append([]byte(nil), l.Content.Bytes()...), Perc: l.TransmittedPerc, Count: l.Count})
 				mu.Unlock()
@@ -407,12 +410,13 @@ func runTail(tl Tail, path string) (res tailResult) {
 		time.Sleep(130 * time.Millisecond) // anything extra (duplicates) would show up with the next poll
 	} else {
 		// the consumer may be pausing: wait until nothing new arrives for a while
-		lastN, since := -1, time.Now()
-		for time.Since(since) < 600*time.Millisecond {
-			if n := nGot(); n != lastN {
-				lastN, since = n, time.Now()
+		since := time.Now()
+		for time.Since(since) < 300*time.Millisecond {
+			// the consumer must really be waiting for a line (not sitting in one of its pauses) and the queue be empty
+			if atomic.LoadInt32(&idle) != 1 || len(lines) != 0 {
+				since = time.Now()
 			}
-			time.Sleep(5 * time.Millisecond)
+			time.Sleep(2 * time.Millisecond)
 		}
 		// the consumer is idle and the queue empty now: a line appended at this point can be kept up with and must arrive
 		sentinel := []byte("m-sentinel: the consumer is idle, this line cannot be dropped")
